@@ -1700,6 +1700,14 @@ pub fn c11(tier: &str) -> Vec<Family> {
     let sc_t2 = c11_scenarios(tier, &tspec, true);
     let sc_t2: Vec<Scenario> = sc_t2.into_iter().take(n_t).collect();
     fams.push(Family::new("timeouts_mt", TAGS_ERRORS, sc_t2).uncontrolled(2, 1));
+    // The same with the timeout configured on the running simulation (`Simulation::set_timeout`).
+    let mut late = (*c11_spec(200)).clone();
+    late.timeout_after_init = true;
+    let late = Arc::new(late);
+    let sc_l: Vec<Scenario> = c11_scenarios(tier, &late, true).into_iter().take(n_t).collect();
+    fams.push(Family::new("timeouts_set_after_init_st", TAGS_ERRORS, sc_l).uncontrolled(1, 1));
+    let sc_l2: Vec<Scenario> = c11_scenarios(tier, &late, true).into_iter().take(n_t).collect();
+    fams.push(Family::new("timeouts_set_after_init_mt", TAGS_ERRORS, sc_l2).uncontrolled(2, 1));
     fams
 }
 
